@@ -94,6 +94,7 @@ func main() {
 	hmacChecks(r)
 	streamChecks(r)
 	overlappedStreams(r)
+	longDigestStreams(r)
 	ipv4Checks(r)
 	stabilityChecks(r)
 	reusedKeyBuffer(r)
